@@ -254,6 +254,12 @@ func RunVM(req *sb.Request, mods map[string]ast.AnalyzedProgram) (res sb.RunResu
 		res.Annotations = evalAnnotations(&vm, compiled)
 	}
 	pctx.Arm(req.CancelAt, req.PollCap)
+	rec.mu.Lock()
+	rec.CancelAtWrite, rec.CancelFn = req.CancelAtWrite, pctx.Cancel
+	rec.mu.Unlock()
+	if req.CancelBeforeStart {
+		pctx.Cancel()
+	}
 	if !req.SkipMain {
 		core := vm.SpawnAsync(hsruntime.MainFn(), nil, nil, nil)
 		_, i := vm.Wait()
@@ -273,6 +279,15 @@ func RunVM(req *sb.Request, mods map[string]ast.AnalyzedProgram) (res sb.RunResu
 	}
 	for k := 0; k < req.RerunCompiled; k++ {
 		res.Reruns = append(res.Reruns, rerunCompiled(req, compiled, lim))
+	}
+	for k := 0; k < req.RecompileAnalysed; k++ {
+		comp2 := compiler.NewCompiler(mods, req.Entry)
+		again, err := comp2.Compile()
+		if err != nil {
+			res.Reruns = append(res.Reruns, sb.Rerun{InitPanic: "compile error: " + err.Error()})
+			continue
+		}
+		res.Reruns = append(res.Reruns, rerunCompiled(req, again, lim))
 	}
 	rec.mu.Lock()
 	rec.closed = true
@@ -435,6 +450,10 @@ func RunTree(req *sb.Request, mods map[string]ast.AnalyzedProgram) (res sb.RunRe
 		rec.mu.Unlock()
 	}
 	var ctx context.Context = pctx
+	rec.CancelAtWrite, rec.CancelFn = req.CancelAtWrite, pctx.Cancel
+	if req.CancelBeforeStart {
+		pctx.Cancel()
+	}
 	res.GoroutinesBefore = runtime.NumGoroutine()
 	i := homescript.Run(req.Limits.TreeCall, mods, req.Entry, TreeExec{H: host}, homescript.TestingInterpreterScopeAdditions(), &ctx)
 	res.Outcome = treeOutcome(i)
